@@ -51,7 +51,7 @@ def required_cells(tier):
     for name, e in POOL.items():
         for cm in poolcase.cmodes_for(e):
             cells.append("%s|cmode=%s" % (name, cm))
-        cells += ["%s|cold" % name, "%s|single" % name, "%s|ties" % name]
+        cells += ["%s|single" % name, "%s|ties" % name] + ([] if e.no_cold else ["%s|cold" % name])
     return cells
 
 
